@@ -20,6 +20,8 @@ JOBS.append(Job('ser.truncated', 'C19/serializer.cpp', 'h_deser_truncated', 'A',
 for fn in ('crc16', 'crc32', 'sum8', 'sum16'):
     JOBS.append(Job('%s.n4' % fn, 'C19/crc.cpp', 'h_' + fn, 'A', defs={'NB': 4}, unwind=10, reach=[fn], timeout=600, clause=fn + ' == bitwise reference, data <= 4 bytes, any seed'))
     JOBS.append(Job('%s.n6' % fn, 'C19/crc.cpp', 'h_' + fn, 'A', defs={'NB': 6}, unwind=10, reach=[fn], timeout=1800, tier='thorough', clause=fn + ' == bitwise reference, data <= 6 bytes'))
+# the 8-bit checksum's 16-bit accumulator only matters once the byte sum can pass 0xffff (>= 258 bytes): 290 bytes of 0xff + 8 symbolic bytes, symbolic length
+JOBS.append(Job('sum8.long', 'C19/crc.cpp', 'h_sum8_long', 'A', defs={'NB': 8, 'NFIX': 290}, unwind=300, reach=['sum8_long'], timeout=900, clause='8-bit checksum == definition for every length <= 298 on inputs 0xff^290 ++ 8 arbitrary bytes (accumulator carry folding beyond 16 bits)'))
 # ---- string-level codecs (URL percent-encoding, hex string decoder)
 for n in (1, 2):
     JOBS.append(Job('url.roundtrip.n%d' % n, 'C19/strcodec.cpp', 'h_url_roundtrip', 'B', defs={'N': n}, reach=['url_roundtrip'], timeout=900, clause='URL percent-codec: decode(encode(s)) == s, both modes, all byte strings of length %d' % n))
